@@ -375,7 +375,9 @@ def single_model_twin(ctx):
     import fsic
     rng = ctx.rng('c08-twin')
     scripts = ['Y = C + G\nC = {c} * Y[0]', 'Y = 0.5 * Y[-1] + X\nZ = 0.9 * Z[0] + Y', 'x = {a} * y + 1\ny = {b} * x[0] + 2',
-               'H = H[-1] + YD - C\nYD = Y - T\nT = {theta} * Y\nY = C + G\nC = {a1} * YD + {a2} * H[-1]']
+               'H = H[-1] + YD - C\nYD = Y - T\nT = {theta} * Y\nY = C + G\nC = {a1} * YD + {a2} * H[-1]',
+               # variables named like members of the model object (a method, a property, a NumPy-style attribute)
+               'size = 0.5 * size[-1] + copy\ncopy = 0.9 * copy[0] + X', 'T = C + values\nC = {c} * T[0]\nvalues = 0.25 * T[-1] + eval', 'solve = {a} * reindex + 1\nreindex = {b} * solve[0] + 2']
     for k, script in enumerate(scripts):
         if not ctx.mine(k):
             continue
